@@ -351,7 +351,7 @@ def e2e_leg(ctx, auth_name, requests, key):
     for (m, t, hs, body), r in zip(requests, results):
         for c in e2e.upstream_messages(r, e2e.WIRESERVER):
             for msg in c:
-                headers = [(n.encode("latin1"), v.encode("latin1")) for n, v in msg["headers"]]
+                headers = [(n.encode("latin1"), (v or "").encode("latin1")) for n, v in msg["headers"]]
                 path, query = split_target(msg["target"].encode("latin1"))
                 auth = [v for n, v in headers if n.lower() == auth_name]
                 spec = spec_string_to_sign(auth_name, msg["method"].encode(), msg["body"], headers, path, query)
@@ -376,13 +376,19 @@ def run(ctx):
     vplib.gen_consts(ctx)
     proofs_ok, detail = vplib.check_proofs(ctx)
     ctx.log("proofs:", proofs_ok, detail[:300])
+    if proofs_ok and not ctx.quick:
+        ok, log = vplib.coqchk(ctx)
+        ctx.log("coqchk:", ok)
+        if not ok:
+            proofs_ok, detail = False, "coqchk rejected GPA.Props.C04: " + log[-800:]
     bins = vplib.cargo_build(ctx, "harness", ["c04"])
+    ctx.log("driver built")
     rng = ctx.rng
     _, _, cstr, skip_pairs_now = gen_consts.generate()
     AUTH = cstr["authorization_header"].encode()
     known = {f.get("class"): f for f in vplib.known_findings("C04")}
 
-    nU, nH, nS, nSbig, nB = (700, 400, 420, 8, 160) if ctx.quick else (20000, 10000, 16000, 60, 4000)
+    nU, nH, nS, nSbig, nB = (700, 400, 420, 8, 160) if ctx.quick else (9000, 5000, 6000, 40, 2000)
     dist = {}
 
     def count(k, n=1):
@@ -489,6 +495,7 @@ def run(ctx):
     oU, oUbad, oUabs = take(len(U)), take(len(U_bad)), take(len(U_abs))
     oH, oHhigh, oHbad = take(len(H)), take(len(H_high)), take(len(H_bad))
     oS, oB = take(len(S)), take(len(B))
+    ctx.log("implementation ran on %d script lines" % len(lines))
 
     disagreements, failures = [], []
 
@@ -502,6 +509,7 @@ def run(ctx):
         return (method, to_string.lower()) in DOCUMENTED_EXEMPT
 
     # ---------------- U leg ----------------
+    sample_U = sample_H = sample_B = None
     calls, live = [], []
     for (m, t), o in zip(U, oU):
         case = {"leg": "U", "method": m, "target": t, "driver_line": "U %s %s" % (hx(m), hx(t))}
@@ -533,6 +541,10 @@ def run(ctx):
         count("U_kv_collision" if m_coll else "U_no_collision")
         if i_pairs:
             count("U_with_params")
+        if sample_U is None and len(i_pairs) >= 3 and not m_coll:
+            sample_U = {"leg": "U", "method": case["method"].decode("latin1"), "target": case["target"].decode("latin1"),
+                        "impl": {"canon_params": impl[2].decode("latin1"), "skip": impl[3]},
+                        "model": {"canon_params": m_params.decode("latin1"), "skip": m_skip}}
     for (m, t), o in zip(U_bad, oUbad):
         count("U_bad_rejected" if "reject" in o else "U_bad_accepted")
     for (m, t), o in zip(U_abs, oUabs):
@@ -540,6 +552,7 @@ def run(ctx):
             fail({"leg": "U", "method": m, "target": t}, "absolute-form target exempted", o)
         count("U_absolute_form")
 
+    ctx.log("U leg compared")
     # ---------------- H leg ----------------
     calls, live = [], []
     for hs, o in zip(H, oH):
@@ -560,11 +573,15 @@ def run(ctx):
         if res[1] != repeated_header_name(AUTH, it):
             disagree(dict(case, what="class predicate repeated_header_name: Coq vs Python"), res[1], repeated_header_name(AUTH, it))
         count("H_repeated_name" if res[1] else "H_no_repeat")
+        if sample_H is None and len(it) >= 3 and not res[1]:
+            sample_H = {"leg": "H", "headers": [[n.decode("latin1"), v.decode("latin1")] for n, v in it],
+                        "impl": unhx(o["canon"]).decode("latin1"), "model": tb(res[0]).decode("latin1")}
     for hs, o in zip(H_high, oHhigh):
         count("C13_stream_value_byte_ge_0x80_" + ("panic" if o.get("panic") else "reject" if "reject" in o else "no_panic"))
     for hs, o in zip(H_bad, oHbad):
         count("H_bad_rejected" if "reject" in o else "H_bad_accepted")
 
+    ctx.log("H leg compared")
     # ---------------- S leg ----------------
     calls, live = [], []
     for (m, t, hs, body, key), o in zip(S, oS):
@@ -632,6 +649,7 @@ def run(ctx):
                         "impl_signature": sig.decode(), "python_hmac_of_model_string": hmac_hex(kb, model_input).decode(),
                         "model_string": model_input.decode("latin1")[:300]}
 
+    ctx.log("S leg compared")
     # ---------------- B leg ----------------
     calls, live = [], []
     for (m, host, port, t, hs, body, key, guid), o in zip(B, oB):
@@ -687,8 +705,20 @@ def run(ctx):
             if auth != [want]:
                 disagree(dict(case, what="authorization value vs HMAC-SHA256(model string)"), want, auth)
             count("B_signed")
+            if sample_B is None:
+                sample_B = {"leg": "B", "url": case["url"].decode("latin1"), "method": case["method"].decode("latin1"),
+                            "impl_authorization": auth[0].decode("latin1") if auth else None, "model_plus_python_hmac": want.decode("latin1"),
+                            "model_signed_string": topt(res[1]).decode("latin1")[:300]}
         else:
             count("B_unsigned")
+
+    # report the simplest failing input: outside the known classes first, then the shortest script line
+    def fkey(f):
+        obs = f.get("impl")
+        in_cls = bool(obs.get("classes")) if isinstance(obs, dict) else False
+        return (in_cls, len(str(f.get("case", {}).get("driver_line", ""))))
+    failures.sort(key=fkey)
+    disagreements.sort(key=lambda d: len(str(d.get("case", {}).get("driver_line", ""))))
 
     # ---------------- known findings ----------------
     def known_filter(f):
@@ -715,7 +745,7 @@ def run(ctx):
                 "own-call shapes and random ones. Non-trivial = distinct input by content. Inputs hyper rejects are counted, not compared; header "
                 "values with a byte >= 0x80 are a separate stream (C13/F7), not counted against C04.",
         "exhaustive": False,
-        "samples": [s for s in [sample_S] if s],
+        "samples": [x for x in [sample_S, sample_U, sample_H, sample_B] if x],
         "input_distribution": dist,
     })
     ctx.assumptions += [
